@@ -4,17 +4,17 @@ package main
 // driver registries, Redis URL parsing, and "the store is built from the validated config".
 
 import (
-	"io"
-	"net"
-	"os"
-	"github.com/chihaya/chihaya/pkg/timecache"
-	"github.com/chihaya/chihaya/pkg/stop"
-	"strconv"
-	"math/big"
 	"errors"
 	"fmt"
+	"github.com/chihaya/chihaya/pkg/stop"
+	"github.com/chihaya/chihaya/pkg/timecache"
+	"io"
 	"math"
+	"math/big"
+	"net"
 	"net/url"
+	"os"
+	"strconv"
 	"strings"
 	"time"
 
